@@ -368,14 +368,14 @@ def main(argv=None):
 
     # counter-models: concretise and replay on the real code (at most MAXR, in parallel;
     # one per function first).  Further refuted obligations are listed in the evidence.
-    MAXR = 10
+    MAXR, MAXTOTAL = 10, 60
     seen_f, first, rest = set(), [], []
     for o in sat_obls:
         (first if o.func not in seen_f else rest).append(o)
         seen_f.add(o.func)
-    chosen = (first + rest)[:MAXR]
-    not_replayed = [o.name for o in (first + rest)[MAXR:]]
+    queue = first + rest
     fn_conc = getattr(mod, "concretise", None)
+    replay_cache = {}
 
     def do_replay(o):
         r = o.result
@@ -386,7 +386,11 @@ def main(argv=None):
             except Exception as ex:
                 detail = f"concretiser failed: {ex}"
         if payload is not None:
-            res = run_replay(o.replay, payload)
+            ck = (o.replay, json.dumps(payload, sort_keys=True, default=str))
+            res = replay_cache.get(ck)
+            if res is None:
+                res = run_replay(o.replay, payload)
+                replay_cache[ck] = res
             detail = res
             if res.get("error"):
                 verdict = "replay-error"
@@ -397,42 +401,46 @@ def main(argv=None):
         return o, payload, detail, verdict
 
     from concurrent.futures import ThreadPoolExecutor
-    with ThreadPoolExecutor(8) as tp:
-        replayed = list(tp.map(do_replay, chosen))
-    for o, payload, detail, verdict in replayed:
-        r = o.result
-        wclass = o.info.get("witness_class")
-        if verdict == "confirmed" and isinstance(detail, dict):
-            wclass = detail.get("witness_class", wclass)
-        fname = os.path.join(repdir, f"{prop}_{hashlib.sha256(o.name.encode()).hexdigest()[:10]}.json")
-        doc = {"property": prop, "obligation": o.name, "function": o.func, "kind": o.kind,
-               "solver": {k: v for k, v in r.items() if k != "model"}, "model": r.get("model"),
-               "evals": r.get("evals"), "replay_kind": o.replay, "replay_input": payload,
-               "replay_result": detail, "verdict": verdict or "no-failing-input-found",
-               "witness_class": wclass, "other_refuted_obligations_not_replayed": not_replayed}
-        if verdict == "spurious" and o.info.get("structural"):
-            # the obligation is a structural fact of the code (lock held, frame, ordering): the refutation stands even though
-            # the bounded replay could not turn it into a failing run
-            verdict = None
-            doc["verdict"] = "no-failing-input-found"
-            doc["note"] = "structural obligation refuted; the replay harness found no failing run within its bound"
-        if verdict == "spurious":
-            undecided.append((o.name, "counter-model did not replay on the real code (abstraction imprecision)"))
+    done = 0
+    # batches of MAXR: stop as soon as a batch yields a reportable violation; refuted obligations whose counter-models do not
+    # replay are undecided, never violations (unless structural)
+    while queue and done < MAXTOTAL and not violations and not known_lines:
+        chosen, queue = queue[:MAXR], queue[MAXR:]
+        done += len(chosen)
+        not_replayed = [o.name for o in queue]
+        with ThreadPoolExecutor(8) as tp:
+            replayed = list(tp.map(do_replay, chosen))
+        for o, payload, detail, verdict in replayed:
+            r = o.result
+            wclass = o.info.get("witness_class")
+            if verdict == "confirmed" and isinstance(detail, dict):
+                wclass = detail.get("witness_class", wclass)
+            fname = os.path.join(repdir, f"{prop}_{hashlib.sha256(o.name.encode()).hexdigest()[:10]}.json")
+            doc = {"property": prop, "obligation": o.name, "function": o.func, "kind": o.kind,
+                   "solver": {k: v for k, v in r.items() if k != "model"}, "model": r.get("model"),
+                   "evals": r.get("evals"), "replay_kind": o.replay, "replay_input": payload,
+                   "replay_result": detail, "verdict": verdict or "no-failing-input-found",
+                   "witness_class": wclass, "other_refuted_obligations_not_replayed": not_replayed}
+            if verdict == "spurious" and o.info.get("structural"):
+                # the obligation is a structural fact of the code (lock held, frame, ordering): the refutation stands even though
+                # the bounded replay could not turn it into a failing run
+                verdict = None
+                doc["verdict"] = "no-failing-input-found"
+                doc["note"] = "structural obligation refuted; the replay harness found no failing run within its bound"
+            if verdict == "spurious":
+                undecided.append((o.name, "counter-model did not replay on the real code (abstraction imprecision)"))
+                json.dump(doc, open(fname, "w"), indent=1, default=str)
+                continue
+            k = match_known(prop, wclass, known) if wclass else None
+            if k is not None:
+                known_lines.append(f"KNOWN-FINDING: property={prop} {k['what']} [{o.name}]")
+                continue
             json.dump(doc, open(fname, "w"), indent=1, default=str)
-            continue
-        k = match_known(prop, wclass, known) if wclass else None
-        if k is not None:
-            known_lines.append(f"KNOWN-FINDING: property={prop} {k['what']} [{o.name}]")
-            continue
-        json.dump(doc, open(fname, "w"), indent=1, default=str)
-        violations.append((fname, "" if verdict == "confirmed" else " no-failing-input-found", o.name))
-    if not_replayed and not violations and not known_lines:
-        # all replayed models were spurious but more refuted obligations exist: report the first
-        o = next(x for x in sat_obls if x.name == not_replayed[0])
-        fname = os.path.join(repdir, f"{prop}_{hashlib.sha256(o.name.encode()).hexdigest()[:10]}.json")
-        json.dump({"property": prop, "obligation": o.name, "function": o.func, "solver": {k: v for k, v in o.result.items() if k != "model"},
-                   "model": o.result.get("model"), "verdict": "no-failing-input-found"}, open(fname, "w"), indent=1, default=str)
-        violations.append((fname, " no-failing-input-found", o.name))
+            violations.append((fname, "" if verdict == "confirmed" else " no-failing-input-found", o.name))
+    not_replayed = [o.name for o in queue]
+    if queue and not violations and not known_lines:
+        for o in queue:
+            undecided.append((o.name, f"refuted by the solver; not replayed (the first {done} counter-models of this run did not replay on the real code)"))
 
     # bounded stand-ins / conformance (run on the real code) -------------
     bounded_results = []
